@@ -3,7 +3,8 @@
 // optional member is skipped — a freshly built response encodes exactly its required members).
 //
 // Pasted verbatim from /repo on every run:
-//   src/ctap2/get_assertion.rs    pub struct Response, pub struct ResponseBuilder, impl ResponseBuilder { build }, pub struct UnsignedExtensionOutputs
+//   src/ctap2/get_assertion.rs    pub struct Response, pub struct ResponseBuilder, impl ResponseBuilder { build }, pub struct UnsignedExtensionOutputs,
+//                                 pub struct ExtensionsOutput, impl ExtensionsOutput { is_set }  (true exactly when some member is set)
 //   src/ctap2/get_info.rs         pub struct Response, pub struct ResponseBuilder, impl ResponseBuilder { build }, pub struct CtapOptions, impl Default for CtapOptions,
 //                                 pub struct Certifications (get-info-full only)
 //   src/ctap2/make_credential.rs  pub struct Response, pub struct ResponseBuilder, impl ResponseBuilder { build }, pub struct UnsignedExtensionOutputs
@@ -60,6 +61,17 @@ pub mod ctap2 {
                 r.unsigned_extension_outputs is None, r.ep_att is None, r.att_stmt is None,
 @*/
 //@extract src/ctap2/get_assertion.rs :: ^impl ResponseBuilder \{ :: contracts=build:ga_build
+
+//@extract src/ctap2/get_assertion.rs :: ^pub struct ExtensionsOutput :: noderive
+        #[cfg(not(feature = "third-party-payment"))]
+        pub open spec fn tpp_set(e: &ExtensionsOutput) -> bool { false }
+        #[cfg(feature = "third-party-payment")]
+        pub open spec fn tpp_set(e: &ExtensionsOutput) -> bool { e.third_party_payment is Some }
+/*@contract eo_is_set
+            // "is there anything to put into the authenticator data's extension map": true exactly when some member is set
+            ensures r == (self.hmac_secret is Some || tpp_set(self)),
+@*/
+//@extract src/ctap2/get_assertion.rs :: ^impl ExtensionsOutput \{ :: contracts=is_set:eo_is_set
         }
     }
 
